@@ -64,10 +64,10 @@ Section Link.
     - cbn [plug] in *.
       assert (Hkne : k <> ref) by (intros ->; apply Hkf; cbn; now left).
       assert (Hhne : h <> h0) by (intros ->; apply Hhf; cbn; now left).
-      destruct (insert_second_ok H Hlen s i ref v0 h0 k v h sd HI Hk Hv Hh Hkne Hhne) as [s' [E1 [HI' E2]]].
+      destruct (insert_second_ok H Hlen s i ref v0 h0 k v h sd HI Hk Hv Hh Hkne Hhne) as [s' [E1 [HI' [E2 _]]]].
       eexists _, s', true, _. split; [exact E1|]. split; [exact E2|]. repeat split; auto; [|discriminate].
       right. eexists. split; [exact HI'|reflexivity].
-    - destruct (insert_at_leaf_3 H Hlen s (f :: c') i ref v0 h0 k v h sd HI) as [s' [a [b [E1 [HI' E2]]]]]; auto; [discriminate|].
+    - destruct (insert_at_leaf_3 H Hlen s (f :: c') i ref v0 h0 k v h sd HI) as [s' [a [b [E1 [HI' [E2 _]]]]]]; auto; [discriminate|].
       eexists _, s', true, _. split; [exact E1|]. split; [exact E2|]. repeat split; auto; [|discriminate].
       right. eexists. split; [exact HI'|reflexivity].
   Qed.
@@ -118,7 +118,7 @@ Section Link.
   Proof.
     intros [Hk [Hv Hh]] Hl.
     assert (Hl' : loc = LAuto \/ loc = LRoot) by (destruct Hl as [[-> _]|[-> _]]; auto).
-    destruct (insert_first_ok H k v h loc Hk Hv Hh Hl') as [s' [E1 [HI E2]]].
+    destruct (insert_first_ok H k v h loc Hk Hv Hh Hl') as [s' [E1 [HI [E2 _]]]].
     exists s', (Some (erase (ILeaf 0 k v h))). split; [exact E1|]. split.
     - destruct Hl as [[-> ->]|[-> ->]]; exact E2.
     - right. eexists. split; [exact HI|reflexivity].
@@ -356,7 +356,7 @@ Section Link.
   Notation rooms := (rooms H).
 
   Lemma step_ok_idu o s ot :
-    Abs H s ot -> is_idu o = true -> op_in_range o -> room s -> step_ok o s ot (op_to_top s o).
+    Abs H s ot -> is_idu o = true -> op_in_range o -> room_for o s -> step_ok o s ot (op_to_top s o).
   Proof.
     intros Habs Hi Hr Hroom. destruct o as [k v h loc|k|k v h|items| |]; try discriminate.
     - now apply insert_step.
